@@ -30,8 +30,11 @@ pub struct SharedBuf(pub Rc<RefCell<Vec<u8>>>);
 
 impl io::Write for SharedBuf {
     fn write(&mut self, buf: &[u8]) -> io::Result<usize> {
-        self.0.borrow_mut().extend_from_slice(buf);
-        Ok(buf.len())
+        // like a pipe or a socket, the sink takes only part of a large buffer per call:
+        // writers must not rely on one `write()` consuming everything
+        let n = buf.len().min(61);
+        self.0.borrow_mut().extend_from_slice(&buf[..n]);
+        Ok(n)
     }
     fn flush(&mut self) -> io::Result<()> {
         Ok(())
